@@ -20,6 +20,13 @@ Three sections, all driving the real `emit_batcher` code:
 3. **worker termination** (`join`, native): receivers started with `sync::spawn` / `tokio::spawn`
    finish (the `JoinHandle` joins) after the sender is dropped, having delivered what was queued
    and fired outstanding callbacks. Not joining within the watchdog is *inconclusive*.
+5. **spawn context** (`spawnctx`, native, tokio): where `tokio::spawn` / `sync::spawn` is CALLED from (plain
+   thread, multi-thread runtime: `block_on` / task / `spawn_blocking` / `LocalSet` / `EnterGuard`,
+   current-thread runtime: `block_on` / task / `LocalSet` / `EnterGuard`) x what becomes of that runtime
+   (dropped, `shutdown_background`, `shutdown_timeout`, kept but driven by nobody, kept busy) x what is
+   done inside it first (nothing, awaited send + flush, a blocking flush / send from its - possibly only -
+   thread while the worker idles). Afterwards a plain thread sends and flushes; the worker must be alive
+   while the sender is, and end when it goes. See `mod spawnctx`.
 */
 
 #[path = "../shared/chanvt.rs"]
@@ -2564,6 +2571,871 @@ mod threads {
 }
 
 // ---------------------------------------------------------------------------
+// 5. spawn context: WHERE the channel's worker is spawned, and how long that context lives
+// ---------------------------------------------------------------------------
+
+/// The calling-context matrix varies where the blocking entry points are CALLED from; here the thing that
+/// varies is where `emit_batcher::tokio::spawn` (control: `sync::spawn`) itself is called from - a plain
+/// thread, `block_on` of a multi-thread runtime, a task / `spawn_blocking` thread / `LocalSet` on one, a
+/// current-thread runtime (`block_on`, task, `LocalSet`), a thread that merely holds an `EnterGuard` - and
+/// what becomes of that runtime afterwards: dropped / shut down while the `Sender` lives on, kept but driven
+/// by nobody, kept busy. The worker must not depend on the runtime it happened to be spawned from:
+///
+/// * items sent and flushed from a plain thread afterwards are processed, flush callbacks fire exactly once,
+///   `blocking_flush` says true;
+/// * a blocking flush / send made from INSIDE the spawning context - for a current-thread runtime that is its
+///   only thread - while the worker sits in its idle back-off comes back true / Ok with everything processed;
+/// * the worker thread is alive (not finished, not panicked) for as long as the sender is, and ends once the
+///   sender is dropped, with everything delivered.
+///
+/// Verdicts are on results, never on durations: a flush that says false counts only when it waited its whole
+/// timeout (4 s) and NOT ONE of the items sent before it reached the (never blocking, never failing)
+/// processor; false with progress, and every watchdog, is inconclusive.
+#[cfg(all(not(miri), feature = "tokio"))]
+mod spawnctx {
+    use super::threads::join_bounded;
+    use super::*;
+    use std::{
+        sync::atomic::{AtomicU64, Ordering},
+        thread,
+        time::Instant,
+    };
+
+    /// timeout of every blocking call made here (on the unchanged tree they take milliseconds)
+    const T: Duration = Duration::from_secs(4);
+    const WATCHDOG: Duration = Duration::from_secs(40);
+
+    #[derive(Clone, Copy, Debug, PartialEq, Eq, Hash)]
+    pub enum Rk {
+        Tokio,
+        Sync,
+    }
+
+    impl Rk {
+        fn name(self) -> &'static str {
+            match self {
+                Rk::Tokio => "tokio::spawn",
+                Rk::Sync => "sync::spawn",
+            }
+        }
+    }
+
+    #[derive(Clone, Copy, Debug, PartialEq, Eq, Hash)]
+    pub enum Origin {
+        Plain,
+        MtBlockOn,
+        MtTask,
+        Mt1Task,
+        MtSpawnBlocking,
+        MtLocalSet,
+        MtEnter,
+        CtBlockOn,
+        CtTask,
+        CtLocalSet,
+        CtEnter,
+    }
+
+    impl Origin {
+        const ALL: [Origin; 11] = [
+            Origin::Plain,
+            Origin::MtBlockOn,
+            Origin::MtTask,
+            Origin::Mt1Task,
+            Origin::MtSpawnBlocking,
+            Origin::MtLocalSet,
+            Origin::MtEnter,
+            Origin::CtBlockOn,
+            Origin::CtTask,
+            Origin::CtLocalSet,
+            Origin::CtEnter,
+        ];
+
+        fn name(self) -> &'static str {
+            match self {
+                Origin::Plain => "plain-thread",
+                Origin::MtBlockOn => "mt-block_on",
+                Origin::MtTask => "mt-task",
+                Origin::Mt1Task => "mt-1-worker-task",
+                Origin::MtSpawnBlocking => "mt-spawn_blocking",
+                Origin::MtLocalSet => "mt-localset",
+                Origin::MtEnter => "mt-enter-guard",
+                Origin::CtBlockOn => "current-thread",
+                Origin::CtTask => "current-thread-task",
+                Origin::CtLocalSet => "current-thread-localset",
+                Origin::CtEnter => "current-thread-enter-guard",
+            }
+        }
+
+        /// the body runs as a future on the runtime (it can await timers there)
+        fn has_executor(self) -> bool {
+            !matches!(self, Origin::Plain | Origin::MtSpawnBlocking | Origin::MtEnter | Origin::CtEnter)
+        }
+
+        fn has_runtime(self) -> bool {
+            self != Origin::Plain
+        }
+    }
+
+    #[derive(Clone, Copy, Debug, PartialEq, Eq, Hash)]
+    pub enum Fate {
+        /// no runtime to speak of (plain thread)
+        NoRuntime,
+        Drop,
+        ShutdownBackground,
+        ShutdownTimeout,
+        /// the runtime object stays, nobody is inside `block_on`
+        AliveIdle,
+        /// the spawning context stays inside the runtime (awaiting) during the outside phase
+        AliveBusy,
+    }
+
+    impl Fate {
+        const OF_A_RUNTIME: [Fate; 5] = [Fate::Drop, Fate::ShutdownBackground, Fate::ShutdownTimeout, Fate::AliveIdle, Fate::AliveBusy];
+
+        fn name(self) -> &'static str {
+            match self {
+                Fate::NoRuntime => "no-runtime",
+                Fate::Drop => "runtime-dropped",
+                Fate::ShutdownBackground => "runtime-shutdown_background",
+                Fate::ShutdownTimeout => "runtime-shutdown_timeout",
+                Fate::AliveIdle => "runtime-alive-driven-by-nobody",
+                Fate::AliveBusy => "runtime-alive-busy",
+            }
+        }
+
+        fn is_dropped(self) -> bool {
+            matches!(self, Fate::Drop | Fate::ShutdownBackground | Fate::ShutdownTimeout)
+        }
+
+        /// for signatures
+        fn when(self) -> &'static str {
+            if self.is_dropped() {
+                "after-the-spawning-runtime-was-dropped"
+            } else if self == Fate::NoRuntime {
+                "from-a-plain-thread"
+            } else {
+                "spawning-runtime-alive"
+            }
+        }
+    }
+
+    #[derive(Clone, Copy, Debug, PartialEq, Eq, Hash)]
+    pub enum Flavour {
+        Tokio,
+        Sync,
+    }
+
+    impl Flavour {
+        fn flush_name(self) -> &'static str {
+            match self {
+                Flavour::Tokio => "tokio::blocking_flush",
+                Flavour::Sync => "sync::blocking_flush",
+            }
+        }
+
+        fn send_name(self) -> &'static str {
+            match self {
+                Flavour::Tokio => "tokio::blocking_send",
+                Flavour::Sync => "sync::blocking_send",
+            }
+        }
+
+        fn flush(self, s: &Sender<Chan>, t: Duration) -> bool {
+            match self {
+                Flavour::Tokio => emit_batcher::tokio::blocking_flush(s, t),
+                Flavour::Sync => emit_batcher::sync::blocking_flush(s, t),
+            }
+        }
+
+        fn send(self, s: &Sender<Chan>, item: u64, t: Duration) -> Result<(), Option<u64>> {
+            match self {
+                Flavour::Tokio => emit_batcher::tokio::blocking_send(s, item, t),
+                Flavour::Sync => emit_batcher::sync::blocking_send(s, item, t),
+            }
+            .map_err(|e| e.into_retryable())
+        }
+    }
+
+    /// What is done inside the spawning context, right after the worker was spawned.
+    #[derive(Clone, Copy, Debug, PartialEq, Eq, Hash)]
+    pub enum Inside {
+        Nothing,
+        /// `tokio::send` + `tokio::flush`, awaited (contexts with an executor only)
+        AsyncSendFlush,
+        /// let the worker go idle, then block this thread in a flush
+        BlockingFlush(Flavour),
+        /// let the worker go idle, fill the queue, then block this thread in a send
+        BlockingSend(Flavour),
+    }
+
+    impl Inside {
+        const ALL: [Inside; 6] = [
+            Inside::Nothing,
+            Inside::AsyncSendFlush,
+            Inside::BlockingFlush(Flavour::Tokio),
+            Inside::BlockingSend(Flavour::Tokio),
+            Inside::BlockingFlush(Flavour::Sync),
+            Inside::BlockingSend(Flavour::Sync),
+        ];
+
+        fn name(self) -> &'static str {
+            match self {
+                Inside::Nothing => "nothing",
+                Inside::AsyncSendFlush => "tokio::send+tokio::flush",
+                Inside::BlockingFlush(f) => f.flush_name(),
+                Inside::BlockingSend(f) => f.send_name(),
+            }
+        }
+    }
+
+    #[derive(Clone, Copy, Debug, PartialEq, Eq, Hash)]
+    pub struct Cell {
+        rk: Rk,
+        from: Origin,
+        fate: Fate,
+        inside: Inside,
+        /// tokio::spawn only: the processor's future awaits a (sub-millisecond) tokio timer
+        timer_in_processor: bool,
+    }
+
+    impl Cell {
+        fn json(&self, seed: u64) -> Json {
+            json!({
+                "section": "spawnctx", "seed": seed, "receiver": self.rk.name(), "spawned_from": self.from.name(), "then": self.fate.name(),
+                "inside_the_spawning_context": self.inside.name(), "processor_awaits_a_tokio_timer": self.timer_in_processor, "timeout_ms": T.as_millis() as u64,
+            })
+        }
+    }
+
+    /// One blocking (or awaited) call and what it came back with.
+    #[derive(Clone, Debug)]
+    enum Obs {
+        Flush { entry: &'static str, when: &'static str, ret: bool, waited: Duration, new: usize, delivered_new: usize },
+        Send { entry: &'static str, when: &'static str, ok: bool, handed_back: Option<u64>, waited: Duration, queued_before: usize, delivered_of_those: usize, was_full: bool },
+        Note(String),
+    }
+
+    struct Shared {
+        delivered: Mutex<Vec<u64>>,
+        /// what the context thread is doing (to name a panic)
+        phase: Mutex<String>,
+        handoff: Done<Result<Handoff, String>>,
+    }
+
+    impl Shared {
+        fn phase(&self, p: &str) {
+            *self.phase.lock().unwrap() = p.to_string();
+        }
+
+        fn count(&self, ids: &[u64]) -> usize {
+            let d = self.delivered.lock().unwrap();
+            ids.iter().filter(|id| d.contains(id)).count()
+        }
+    }
+
+    struct Handoff {
+        sender: Sender<Chan>,
+        handle: thread::JoinHandle<()>,
+        next: u64,
+        sent: Vec<u64>,
+        obs: Vec<Obs>,
+    }
+
+    fn spawn_worker(cell: Cell, receiver: emit_batcher::Receiver<Chan>, sh: Arc<Shared>) -> std::io::Result<thread::JoinHandle<()>> {
+        // a healthy processor: never blocks on anything of the monitor's, never fails
+        match cell.rk {
+            Rk::Sync => emit_batcher::sync::spawn("c08_spawnctx", receiver, move |batch: Chan| {
+                sh.delivered.lock().unwrap().extend(batch);
+                Ok(())
+            }),
+            Rk::Tokio => {
+                let timer = cell.timer_in_processor;
+                emit_batcher::tokio::spawn("c08_spawnctx", receiver, move |batch: Chan| {
+                    let sh = sh.clone();
+                    async move {
+                        if timer {
+                            tokio::time::sleep(Duration::from_micros(300)).await;
+                        } else {
+                            tokio::task::yield_now().await;
+                        }
+                        sh.delivered.lock().unwrap().extend(batch);
+                        Ok(())
+                    }
+                })
+            }
+        }
+    }
+
+    async fn nap(exec: bool, d: Duration) {
+        if exec {
+            tokio::time::sleep(d).await
+        } else {
+            thread::sleep(d)
+        }
+    }
+
+    /// Runs inside the spawning context.
+    async fn body(cell: Cell, sh: Arc<Shared>, exec: bool, stay: Option<tokio::sync::oneshot::Receiver<()>>) {
+        const WHEN: &str = "inside-the-spawning-context";
+        sh.phase(&format!("{} called from {}", cell.rk.name(), cell.from.name()));
+        let cap = if matches!(cell.inside, Inside::BlockingSend(_)) { 4 } else { 1 << 16 };
+        let (sender, receiver) = bounded::<Chan>(cap);
+        let handle = match spawn_worker(cell, receiver, sh.clone()) {
+            Ok(h) => h,
+            Err(e) => {
+                sh.handoff.set(Err(format!("io: {}", e)));
+                return;
+            }
+        };
+        let mut next = 1u64;
+        let mut sent = Vec::new();
+        let mut obs = Vec::new();
+        match cell.inside {
+            Inside::Nothing => {}
+            Inside::AsyncSendFlush => {
+                let mut new = Vec::new();
+                for _ in 0..3 {
+                    sh.phase("tokio::send awaited inside the spawning context");
+                    let t0 = Instant::now();
+                    let res = emit_batcher::tokio::send(&sender, next, T).await.map_err(|e| e.into_retryable());
+                    obs.push(Obs::Send { entry: "tokio::send", when: WHEN, ok: res.is_ok(), handed_back: res.err().flatten(), waited: t0.elapsed(), queued_before: 0, delivered_of_those: 0, was_full: false });
+                    if res.is_ok() {
+                        new.push(next);
+                    }
+                    next += 1;
+                }
+                sh.phase("tokio::flush awaited inside the spawning context");
+                let t0 = Instant::now();
+                let ret = emit_batcher::tokio::flush(&sender, T).await;
+                obs.push(Obs::Flush { entry: "tokio::flush", when: WHEN, ret, waited: t0.elapsed(), new: new.len(), delivered_new: sh.count(&new) });
+                sent.extend(new);
+            }
+            Inside::BlockingFlush(_) | Inside::BlockingSend(_) => {
+                // let the worker process something first, then sit in its idle back-off
+                sh.phase("waiting for the worker to go idle (inside the spawning context)");
+                sender.send(next);
+                sent.push(next);
+                let first = [next];
+                next += 1;
+                let t0 = Instant::now();
+                while sh.count(&first) == 0 {
+                    if t0.elapsed() > Duration::from_secs(5) {
+                        obs.push(Obs::Note("the first item had not reached the processor 5 s after it was sent from inside the spawning context".into()));
+                        break;
+                    }
+                    nap(exec, Duration::from_millis(1)).await;
+                }
+                let t0 = Instant::now();
+                loop {
+                    let snap = sender.verif_snapshot();
+                    if (snap.pending_len == 0 && !snap.is_in_batch) || t0.elapsed() > Duration::from_secs(2) {
+                        break;
+                    }
+                    nap(exec, Duration::from_millis(1)).await;
+                }
+                // (with the delay divisor of this section the idle waits are 0.1, 0.3, ... 50 ms: after 20 ms of
+                // nothing to do the worker is inside a sleep of several milliseconds)
+                nap(exec, Duration::from_millis(20)).await;
+                match cell.inside {
+                    Inside::BlockingFlush(fl) => {
+                        let new: Vec<u64> = (0..3).map(|k| next + k).collect();
+                        next += 3;
+                        for id in &new {
+                            sender.send(*id);
+                        }
+                        sh.phase(&format!("{} called inside the spawning context ({})", fl.flush_name(), cell.from.name()));
+                        let t0 = Instant::now();
+                        let ret = fl.flush(&sender, T);
+                        obs.push(Obs::Flush { entry: fl.flush_name(), when: WHEN, ret, waited: t0.elapsed(), new: new.len(), delivered_new: sh.count(&new) });
+                        sent.extend(new);
+                    }
+                    Inside::BlockingSend(fl) => {
+                        let mut queued = Vec::new();
+                        for _ in 0..cap {
+                            if sender.try_send(next).is_ok() {
+                                queued.push(next);
+                            }
+                            next += 1;
+                        }
+                        let was_full = sender.verif_snapshot().pending_len >= cap;
+                        sh.phase(&format!("{} called inside the spawning context ({})", fl.send_name(), cell.from.name()));
+                        let item = next;
+                        next += 1;
+                        let t0 = Instant::now();
+                        let res = fl.send(&sender, item, T);
+                        obs.push(Obs::Send {
+                            entry: fl.send_name(),
+                            when: WHEN,
+                            ok: res.is_ok(),
+                            handed_back: res.err().flatten(),
+                            waited: t0.elapsed(),
+                            queued_before: queued.len(),
+                            delivered_of_those: sh.count(&queued),
+                            was_full,
+                        });
+                        sent.extend(queued);
+                        if res.is_ok() {
+                            sent.push(item);
+                        }
+                    }
+                    _ => unreachable!(),
+                }
+            }
+        }
+        sh.phase("handing the sender to a plain thread");
+        sh.handoff.set(Ok(Handoff { sender, handle, next, sent, obs }));
+        if let Some(stay) = stay {
+            // the spawning context stays alive and busy: awaiting inside the runtime
+            let _ = stay.await;
+        }
+        sh.phase("leaving the spawning context");
+    }
+
+    /// For contexts without an executor: the body never really suspends there.
+    fn drive<F: Future>(fut: F) -> F::Output {
+        let mut fut = Box::pin(fut);
+        loop {
+            if let Poll::Ready(v) = poll_once(fut.as_mut()) {
+                return v;
+            }
+            thread::yield_now();
+        }
+    }
+
+    fn joined<T>(res: Result<T, tokio::task::JoinError>) -> T {
+        match res {
+            Ok(v) => v,
+            Err(e) if e.is_panic() => std::panic::resume_unwind(e.into_panic()),
+            Err(e) => panic!("the task carrying the spawning context failed: {}", e),
+        }
+    }
+
+    /// The context thread: build the runtime, run the body in the context, then let the runtime meet its fate.
+    fn run_ctx(cell: Cell, sh: Arc<Shared>, stay: tokio::sync::oneshot::Receiver<()>, release: Done<()>, gone: Done<()>) {
+        let mt = |n: usize| tokio::runtime::Builder::new_multi_thread().worker_threads(n).enable_all().build().unwrap();
+        let ct = || tokio::runtime::Builder::new_current_thread().enable_all().build().unwrap();
+        let exec = cell.from.has_executor();
+        let stay = if exec && cell.fate == Fate::AliveBusy { Some(stay) } else { None };
+        let fut = body(cell, sh.clone(), exec, stay);
+        // (`Done::wait` takes the value: wait for the release only once)
+        let mut released = false;
+        let rt: Option<tokio::runtime::Runtime> = match cell.from {
+            Origin::Plain => {
+                drive(fut);
+                None
+            }
+            Origin::MtBlockOn => {
+                let rt = mt(2);
+                rt.block_on(fut);
+                Some(rt)
+            }
+            Origin::MtTask | Origin::Mt1Task => {
+                let rt = mt(if cell.from == Origin::Mt1Task { 1 } else { 2 });
+                rt.block_on(async move { joined(tokio::spawn(fut).await) });
+                Some(rt)
+            }
+            Origin::MtSpawnBlocking => {
+                let rt = mt(2);
+                rt.block_on(async move { joined(tokio::task::spawn_blocking(move || drive(fut)).await) });
+                Some(rt)
+            }
+            Origin::MtLocalSet | Origin::CtLocalSet => {
+                let rt = if cell.from == Origin::MtLocalSet { mt(2) } else { ct() };
+                let local = tokio::task::LocalSet::new();
+                rt.block_on(local.run_until(async move { joined(tokio::task::spawn_local(fut).await) }));
+                drop(local);
+                Some(rt)
+            }
+            Origin::CtBlockOn => {
+                let rt = ct();
+                rt.block_on(fut);
+                Some(rt)
+            }
+            Origin::CtTask => {
+                let rt = ct();
+                rt.block_on(async move { joined(tokio::spawn(fut).await) });
+                Some(rt)
+            }
+            Origin::MtEnter | Origin::CtEnter => {
+                let rt = if cell.from == Origin::MtEnter { mt(2) } else { ct() };
+                {
+                    let _guard = rt.enter();
+                    drive(fut);
+                    if !cell.fate.is_dropped() {
+                        // the guard stays in place during the outside phase
+                        let _ = release.wait(WATCHDOG + WATCHDOG);
+                        released = true;
+                    }
+                }
+                Some(rt)
+            }
+        };
+        sh.phase(&format!("{} ({})", cell.fate.name(), cell.from.name()));
+        match (cell.fate, rt) {
+            (Fate::Drop, Some(rt)) => drop(rt),
+            (Fate::ShutdownBackground, Some(rt)) => rt.shutdown_background(),
+            (Fate::ShutdownTimeout, Some(rt)) => rt.shutdown_timeout(Duration::from_millis(50)),
+            (_, rt) => {
+                if !released {
+                    let _ = release.wait(WATCHDOG + WATCHDOG);
+                }
+                drop(rt);
+            }
+        }
+        gone.set(());
+    }
+
+    fn judge_obs(r: &mut Report, cell: &Cell, case: &Json, obs: &Obs) -> bool {
+        let tail = format!("{}:from={}", cell.rk.name(), cell.from.name());
+        match obs {
+            Obs::Note(n) => {
+                r.observe("spawnctx:set-up-notes", 1);
+                let _ = n;
+                true
+            }
+            Obs::Flush { entry, when, ret, waited, new, delivered_new } => {
+                r.observe(&format!("spawnctx:{}:{}:{}", entry, when, if *ret { "true" } else { "false" }), 1);
+                if *ret {
+                    if delivered_new < new {
+                        let mut c = case.clone();
+                        c["call"] = json!({"entry": entry, "when": when, "items_sent_before": new, "of_those_processed_at_return": delivered_new});
+                        r.violation(
+                            &format!("C08:spawn-ctx:flush-true-but-items-not-processed:{}:{}", tail, when),
+                            &format!("{} ({}) returned true but only {} of the {} items sent before it had reached the processor", entry, when, delivered_new, new),
+                            c,
+                        );
+                        return false;
+                    }
+                    true
+                } else if *delivered_new == 0 && *waited >= T {
+                    let mut c = case.clone();
+                    c["call"] = json!({"entry": entry, "when": when, "items_sent_before": new, "of_those_processed_at_return": 0, "waited_ms": waited.as_millis() as u64});
+                    r.violation(
+                        &format!("C08:spawn-ctx:flush-false-with-healthy-processor:{}:{}", tail, when),
+                        &format!(
+                            "a worker started with {} from {}: {} ({}) waited its whole timeout ({:?}) and returned false, and not one of the {} items sent before it reached the processor, which never blocks and never fails",
+                            cell.rk.name(), cell.from.name(), entry, when, waited, new
+                        ),
+                        c,
+                    );
+                    false
+                } else {
+                    r.inconclusive(format!("spawnctx {} {}: {} returned false after {:?} with {} of {} items processed (load?)", tail, when, entry, waited, delivered_new, new));
+                    false
+                }
+            }
+            Obs::Send { entry, when, ok, handed_back, waited, queued_before, delivered_of_those, was_full } => {
+                r.observe(&format!("spawnctx:{}:{}:{}", entry, when, if *ok { "ok" } else { "err" }), 1);
+                if *was_full {
+                    r.observe("spawnctx:blocking-send-on-a-full-queue-with-an-idle-worker", 1);
+                }
+                if *ok {
+                    true
+                } else if *delivered_of_those == 0 && *waited >= T {
+                    let mut c = case.clone();
+                    c["call"] = json!({"entry": entry, "when": when, "items_queued_before": queued_before, "of_those_processed_at_return": 0, "handed_back": handed_back, "waited_ms": waited.as_millis() as u64});
+                    r.violation(
+                        &format!("C08:spawn-ctx:send-err-with-healthy-processor:{}:{}", tail, when),
+                        &format!(
+                            "a worker started with {} from {}: {} ({}) on a full queue waited its whole timeout ({:?}) and gave the item back, and not one of the {} queued items reached the processor, which never blocks and never fails",
+                            cell.rk.name(), cell.from.name(), entry, when, waited, queued_before
+                        ),
+                        c,
+                    );
+                    false
+                } else {
+                    r.inconclusive(format!("spawnctx {} {}: {} returned Err after {:?} with {} of {} queued items processed (load?)", tail, when, entry, waited, delivered_of_those, queued_before));
+                    false
+                }
+            }
+        }
+    }
+
+    pub fn run_cell(r: &mut Report, seed: u64, cell: Cell) {
+        r.eval();
+        let case = cell.json(seed);
+        let tail = format!("{}:from={}", cell.rk.name(), cell.from.name());
+        let sh = Arc::new(Shared { delivered: Mutex::new(Vec::new()), phase: Mutex::new(String::new()), handoff: Done::new() });
+        let (stay_tx, stay_rx) = tokio::sync::oneshot::channel::<()>();
+        let (release, gone): (Done<()>, Done<()>) = (Done::new(), Done::new());
+        let ctx_end: Done<Result<(), String>> = Done::new();
+        {
+            let (sh, release, gone, ctx_end) = (sh.clone(), release.clone(), gone.clone(), ctx_end.clone());
+            let spawned = thread::Builder::new().name("c08_spawn_from".into()).spawn(move || {
+                let res = catch(|| run_ctx(cell, sh.clone(), stay_rx, release, gone));
+                if let Err(msg) = &res {
+                    // (nobody reads this if the hand-over already happened)
+                    sh.handoff.set(Err(format!("panic: {}", msg)));
+                }
+                ctx_end.set(res);
+            });
+            if spawned.is_err() {
+                r.inconclusive("spawnctx: could not start the context thread");
+                return;
+            }
+        }
+        let finish = |stay_tx: tokio::sync::oneshot::Sender<()>| {
+            let _ = stay_tx.send(());
+            release.set(());
+        };
+        let h = match sh.handoff.wait(WATCHDOG) {
+            Some(Ok(h)) => h,
+            Some(Err(e)) if e.starts_with("panic: ") => {
+                let phase = sh.phase.lock().unwrap().clone();
+                let mut c = case.clone();
+                c["panicked_while"] = json!(phase);
+                r.violation(
+                    &format!("C08:spawn-ctx:panic:{}", tail),
+                    &format!("a panic escaped inside the spawning context ({}) while: {}: {}", cell.from.name(), phase, &e[7..]),
+                    c,
+                );
+                finish(stay_tx);
+                return;
+            }
+            Some(Err(e)) => {
+                r.inconclusive(format!("spawnctx {}: the worker could not be spawned: {}", tail, e));
+                finish(stay_tx);
+                return;
+            }
+            None => {
+                r.inconclusive(format!("spawnctx {}: the spawning context had not handed the sender over within the watchdog (it was: {})", tail, sh.phase.lock().unwrap()));
+                finish(stay_tx);
+                return;
+            }
+        };
+        let Handoff { sender, handle, mut next, mut sent, obs } = h;
+        r.observe(&format!("spawnctx:spawned:{}:from={}", cell.rk.name(), cell.from.name()), 1);
+        r.observe(&format!("spawnctx:then:{}", cell.fate.name()), 1);
+        r.observe(&format!("spawnctx:inside:{}", cell.inside.name()), 1);
+        r.nontrivial(&("spawnctx", cell));
+        let mut go_on = true;
+        for o in &obs {
+            go_on &= judge_obs(r, &cell, &case, o);
+        }
+        // the spawning runtime meets its fate
+        if cell.fate.is_dropped() {
+            if gone.wait(WATCHDOG).is_none() {
+                r.inconclusive(format!("spawnctx {}: {} had not returned within the watchdog", tail, cell.fate.name()));
+                go_on = false;
+            } else {
+                r.observe("spawnctx:spawning-runtime-gone-while-the-sender-lives", 1);
+            }
+        }
+        // ---- the outside phase: a plain thread (this one) keeps sending and flushing ----
+        let when = cell.fate.when();
+        let fired: Vec<Arc<AtomicU64>> = (0..3).map(|_| Arc::new(AtomicU64::new(0))).collect();
+        let mut registered = 0usize;
+        let mut panic_outside = None;
+        for round in 0..3usize {
+            if !go_on {
+                break;
+            }
+            let fl = if (round + cell.from as usize) % 2 == 0 { Flavour::Tokio } else { Flavour::Sync };
+            let new: Vec<u64> = (0..1 + round as u64).map(|k| next + k).collect();
+            next += new.len() as u64;
+            let res = catch(|| {
+                for id in &new {
+                    sender.send(*id);
+                }
+                let f = fired[round].clone();
+                sender.when_flushed(move || {
+                    f.fetch_add(1, Ordering::SeqCst);
+                });
+                let t0 = Instant::now();
+                let ret = fl.flush(&sender, T);
+                (ret, t0.elapsed())
+            });
+            registered = round + 1;
+            match res {
+                Err(msg) => {
+                    panic_outside = Some((fl.flush_name(), msg));
+                    go_on = false;
+                }
+                Ok((ret, waited)) => {
+                    let o = Obs::Flush { entry: fl.flush_name(), when, ret, waited, new: new.len(), delivered_new: sh.count(&new) };
+                    go_on &= judge_obs(r, &cell, &case, &o);
+                    if ret && fired[round].load(Ordering::SeqCst) != 1 {
+                        // the callback was registered before the flush's own: it rides the same or an earlier batch
+                        let n = fired[round].load(Ordering::SeqCst);
+                        r.violation(
+                            &format!("C08:spawn-ctx:callback-fired-{}-times-at-flush:{}:{}", if n == 0 { "zero" } else { "several" }, tail, when),
+                            &format!("a flush callback registered before {} ({}) had fired {} times when that flush returned true", fl.flush_name(), when, n),
+                            case.clone(),
+                        );
+                        go_on = false;
+                    }
+                }
+            }
+            sent.extend(new);
+        }
+        if let Some((entry, msg)) = panic_outside {
+            r.violation(
+                &format!("C08:spawn-ctx:panic:{}:{}", tail, when),
+                &format!("{} ({}) panicked on a channel whose worker was started with {} from {}: {}", entry, when, cell.rk.name(), cell.from.name(), msg),
+                case.clone(),
+            );
+        }
+        // ---- the worker lives as long as the sender does ----
+        if handle.is_finished() {
+            let how = match handle.join() {
+                Ok(()) => "returned".to_string(),
+                Err(p) => format!("panicked: {}", panic_message(&p)),
+            };
+            let sig = if cell.fate.is_dropped() {
+                format!("C08:spawn-ctx:worker-died-after-spawning-runtime-was-dropped:{}", tail)
+            } else {
+                format!("C08:spawn-ctx:worker-died-while-the-sender-lives:{}", tail)
+            };
+            let mut c = case.clone();
+            c["worker_thread"] = json!(how);
+            r.violation(
+                &sig,
+                &format!(
+                    "the worker thread started with {} from {} has ended ({}) although the sender is still alive and the receiver was never dropped ({})",
+                    cell.rk.name(), cell.from.name(), how, cell.fate.name()
+                ),
+                c,
+            );
+            drop(sender);
+            finish(stay_tx);
+            let _ = ctx_end.wait(Duration::from_secs(20));
+            return;
+        }
+        r.observe("spawnctx:worker-alive-while-the-sender-lives", 1);
+        // ---- the sender goes: the worker delivers what is queued and ends ----
+        let tail_items: Vec<u64> = (0..2).map(|k| next + k).collect();
+        if go_on {
+            for id in &tail_items {
+                sender.send(*id);
+            }
+            sent.extend(tail_items.iter().copied());
+        }
+        drop(sender);
+        match join_bounded(handle, if go_on { WATCHDOG } else { Duration::from_secs(5) }) {
+            None => {
+                if go_on {
+                    r.inconclusive(format!("spawnctx {}: the worker had not terminated within the watchdog after the sender was dropped ({})", tail, cell.fate.name()));
+                }
+            }
+            Some(Err(p)) => {
+                r.violation(
+                    &format!("C08:spawn-ctx:worker-thread-panicked:{}:{}", tail, when),
+                    &format!("the worker thread started with {} from {} ended with a panic ({}): {}", cell.rk.name(), cell.from.name(), cell.fate.name(), panic_message(&p)),
+                    case.clone(),
+                );
+            }
+            Some(Ok(())) => {
+                r.observe("spawnctx:worker-joined-after-sender-drop", 1);
+                if go_on {
+                    let missing = sent.len() - sh.count(&sent);
+                    r.observe("spawnctx:items-delivered", (sent.len() - missing) as u64);
+                    if missing > 0 {
+                        r.violation(
+                            &format!("C08:spawn-ctx:items-not-delivered-at-termination:{}:{}", tail, when),
+                            &format!("the worker terminated but {} of the {} items accepted before the sender was dropped never reached the processor (no overflow happened)", missing, sent.len()),
+                            case.clone(),
+                        );
+                    }
+                    let dup = {
+                        let d = sh.delivered.lock().unwrap();
+                        let set: HashSet<u64> = d.iter().copied().collect();
+                        d.len() - set.len()
+                    };
+                    if dup > 0 {
+                        r.violation(
+                            &format!("C08:spawn-ctx:items-delivered-twice:{}:{}", tail, when),
+                            &format!("{} items reached the never-failing processor more than once", dup),
+                            case.clone(),
+                        );
+                    }
+                    for (k, f) in fired.iter().enumerate().take(registered) {
+                        let n = f.load(Ordering::SeqCst);
+                        if n != 1 {
+                            r.violation(
+                                &format!("C08:spawn-ctx:callback-fired-{}-times:{}:{}", if n == 0 { "zero" } else { "several" }, tail, when),
+                                &format!("flush callback #{} had fired {} times by the time the worker had terminated", k, n),
+                                case.clone(),
+                            );
+                        } else {
+                            r.observe("spawnctx:flush-callbacks-fired-once", 1);
+                        }
+                    }
+                }
+            }
+        }
+        finish(stay_tx);
+        // the context thread itself (dropping a runtime that is kept, a panic on the way out)
+        match ctx_end.wait(Duration::from_secs(20)) {
+            Some(Err(msg)) => {
+                let phase = sh.phase.lock().unwrap().clone();
+                r.violation(
+                    &format!("C08:spawn-ctx:panic:{}", tail),
+                    &format!("a panic escaped in the spawning context ({}) while: {}: {}", cell.from.name(), phase, msg),
+                    case.clone(),
+                );
+            }
+            Some(Ok(())) => {}
+            None => r.inconclusive(format!("spawnctx {}: the context thread had not ended 20 s after it was released", tail)),
+        }
+        if r.wants_sample() && cell.rk == Rk::Tokio && cell.from == Origin::CtBlockOn && cell.fate.is_dropped() {
+            let n = sh.delivered.lock().unwrap().len();
+            let obs: Vec<String> = obs.iter().map(|o| format!("{:?}", o)).collect();
+            r.sample(move || json!({"spawnctx": case, "calls_inside": obs, "items_processed": n}));
+        }
+    }
+
+    pub fn cells(seed: u64) -> Vec<Cell> {
+        let mut out = Vec::new();
+        let mut k = seed as usize;
+        for rk in [Rk::Tokio, Rk::Sync] {
+            for from in Origin::ALL {
+                let fates: &[Fate] = if from.has_runtime() { &Fate::OF_A_RUNTIME } else { &[Fate::NoRuntime] };
+                for &fate in fates {
+                    // what happens inside rotates with the cell and the seed ...
+                    let mut inside = Inside::ALL[k % Inside::ALL.len()];
+                    k += 1;
+                    if inside == Inside::AsyncSendFlush && !from.has_executor() {
+                        inside = Inside::Nothing;
+                    }
+                    out.push(Cell { rk, from, fate, inside, timer_in_processor: k % 2 == 0 });
+                }
+                // ... and every blocking entry point is called from inside every spawning context that stays alive
+                for inside in Inside::ALL {
+                    if inside == Inside::Nothing || (inside == Inside::AsyncSendFlush && !from.has_executor()) {
+                        continue;
+                    }
+                    k += 1;
+                    let fate = if !from.has_runtime() {
+                        Fate::NoRuntime
+                    } else if k % 3 == 0 {
+                        Fate::Drop
+                    } else {
+                        Fate::AliveBusy
+                    };
+                    let c = Cell { rk, from, fate, inside, timer_in_processor: k % 2 == 1 };
+                    if !out.contains(&c) {
+                        out.push(c);
+                    }
+                }
+            }
+        }
+        out
+    }
+
+    pub fn section(r: &mut Report, args: &Args) {
+        // real sleeps between 0.1 and 50 ms in the worker's idle back-off (the logical state is untouched)
+        emit_batcher::verif::set_delay_divisor(10);
+        let rounds = args.n(1, 6);
+        for round in 0..rounds {
+            let cs = cells(args.seed.wrapping_add(round * 7919));
+            let seed = args.seed;
+            par_each(r, &cs, |c, r| run_cell(r, seed, *c));
+        }
+        emit_batcher::verif::set_delay_divisor(1000);
+    }
+}
+
+// ---------------------------------------------------------------------------
 
 fn main() {
     let args = Args::parse();
@@ -2572,7 +3444,8 @@ fn main() {
         &args,
         "vt: one evaluation = one seeded (outcome script, sender program) run of Receiver::exec under virtual time; non-trivial = distinct realized \
          per-call sequences (outcome kind, pending-first, first-attempt?) containing at least one failure outcome. ctx: one evaluation = one blocking call; \
-         non-trivial = distinct (entry point, calling context, channel state). join: one evaluation = one spawned worker joined after sender drop",
+         non-trivial = distinct (entry point, calling context, channel state). join: one evaluation = one spawned worker joined after sender drop. \
+         spawnctx: one evaluation = one worker spawned from one context; non-trivial = distinct (receiver flavour, spawning context, fate of the spawning runtime, call made inside it)",
     );
     let seed = args.seed;
     let only = args.get("section").map(|s| s.to_string());
@@ -2603,6 +3476,9 @@ fn main() {
                     } else if section == "overstay" {
                         let cells = threads::overstay_start(&r, &a);
                         threads::overstay_collect(&mut r, cells);
+                    } else if section == "spawnctx" {
+                        #[cfg(feature = "tokio")]
+                        spawnctx::section(&mut r, &a);
                     } else {
                         threads::termination(&mut r, &a);
                     }
@@ -2653,6 +3529,13 @@ fn main() {
         if want("join") {
             let args2 = args.clone();
             bounded_section(&mut r, "join", sec_limit, move |r| threads::termination(r, &args2));
+        }
+        #[cfg(feature = "tokio")]
+        if want("spawnctx") {
+            let args2 = args.clone();
+            let t0 = r.elapsed_s();
+            bounded_section(&mut r, "spawnctx", sec_limit, move |r| spawnctx::section(r, &args2));
+            r.set("spawnctx_section_wall_s", json!(r.elapsed_s() - t0));
         }
         if want("sampler") {
             let args2 = args.clone();
